@@ -60,7 +60,17 @@ impl Drop for Worker {
 pub use refmodel::run::observe;
 
 pub fn replay_case(w: &World, spec: &RunSpec, expected: Value, r: &RunResult, root: &Path) -> Value {
-    json!({"kind": "e1", "world": w.describe(), "spec": spec.describe(), "expected": expected, "observed": observe(r, root)})
+    // environment values naming the scratch directory (fault plans, logs) are stored relative to <ROOT>
+    let mut sd = spec.describe();
+    let rs = root.display().to_string();
+    if let Some(env) = sd["env"].as_array_mut() {
+        for kv in env.iter_mut() {
+            if let Some(v) = kv[1].as_str() {
+                kv[1] = json!(v.replace(&rs, "<ROOT>"));
+            }
+        }
+    }
+    json!({"kind": "e1", "world": w.describe(), "spec": sd, "expected": expected, "observed": observe(r, root)})
 }
 
 /// `explore --replay <file>`: re-materialise, re-run twice, require identical observations equal to the recorded one.
@@ -77,6 +87,10 @@ pub fn replay(path: &str) -> i32 {
     let mut obs = Vec::new();
     for k in 0..2 {
         let wk = Worker::new(&root, k);
+        let mut spec = spec.clone();
+        for kv in spec.env.iter_mut() {
+            kv.1 = kv.1.replace("<ROOT>", &wk.dir.display().to_string());
+        }
         match wk.world_run(&world, &spec) {
             Ok(r) => obs.push(observe(&r, &wk.dir)),
             Err(e) => {
